@@ -58,6 +58,10 @@ func (f *MultipleValueSetq) Call(s *slip.Scope, args slip.List, depth int) slip.
 		form = slip.ListToFunc(s, lst, d2)
 	}
 	v := s.Eval(form, d2)
+	if _, exit := v.(slip.NonLocalExit); exit {
+		// return-from, return or go: control is leaving the form.
+		return v
+	}
 	values, ok := v.(slip.Values)
 	if !ok {
 		values = slip.Values{v}
@@ -75,6 +79,10 @@ func (f *MultipleValueSetq) Call(s *slip.Scope, args slip.List, depth int) slip.
 		} else {
 			s.Set(sym, nil)
 		}
+	}
+	if len(values) == 0 {
+		// (values): every variable is nil and so is the result.
+		return nil
 	}
 	return values[0]
 }
